@@ -375,10 +375,10 @@ func (p *ProofD) ChallengeContribution(pk *gabikeys.PublicKey) ([]*big.Int, erro
 	}
 
 	if p.RangeProofs != nil {
-		if p.cachedRangeStructures == nil {
-			if err := p.reconstructRangeProofStructures(pk); err != nil {
-				return nil, err
-			}
+		// The structures (and the limits checked while extracting them) depend on the parameters
+		// of the public key, so they are extracted anew for the key of this verification.
+		if err := p.reconstructRangeProofStructures(pk); err != nil {
+			return nil, err
 		}
 		// need stable attribute order for rangeproof contributions
 		indices := make([]int, 0, len(p.RangeProofs))
